@@ -1,2 +1,139 @@
-(* Properties/C13.v — placeholder, filled below *)
-From Verif Require Import C13.Model C13.Spec.
+(* Properties/C13.v — Annotating a change yields the exact old/new diff for every element.
+
+   ONLY statements, each closed by a lemma of C13/Proofs.v, Print Assumptions, and non-vacuity
+   examples.  The model (C13/Model.v) transcribes annotate/change.go (Change, addUpdate,
+   checkErr, findPrevious{Node,Way,Relation}) over an abstract HistoryDatasourcer; it is tied to
+   /repo by the correspondence harness (harness/cmd/c13) on every run.
+   All statements are for arbitrary changes and arbitrary histories (any order, gaps, later
+   versions, duplicates, empty, missing), for both values of the ignore-missing option;
+   the only hypothesis is that history versions are non-negative. *)
+From Coq Require Import ZArith List Bool Lia.
+From Verif Require Import C13.Model C13.Spec C13.Proofs.
+Import ListNotations.
+Open Scope Z_scope.
+
+(* 1. the predecessor search: the entry returned is in the history, its version is below the
+      element's own and no entry below the element's version is above it; nothing is returned
+      exactly when the history has no entry below (in particular when it is empty). *)
+Theorem C13_find_previous_is_max_below : forall ver hist,
+  versions_nonneg hist = true ->
+  match find_previous ver hist with
+  | Some o => is_prev ver hist o
+  | None => no_prev ver hist
+  end.
+Proof. exact find_previous_spec. Qed.
+Print Assumptions C13_find_previous_is_max_below.
+
+Theorem C13_find_previous_none_iff : forall ver hist,
+  versions_nonneg hist = true ->
+  (find_previous ver hist = None <-> no_prev ver hist).
+Proof.
+  intros ver hist Hnn. pose proof (find_previous_spec ver hist Hnn) as H.
+  destruct (find_previous ver hist) as [o|]; split; intro Hx; try discriminate; auto.
+  exfalso. exact (is_prev_not_no_prev _ _ _ H Hx).
+Qed.
+Print Assumptions C13_find_previous_none_iff.
+
+(* ... and it is the FIRST entry carrying the greatest version below (two-pass reference) *)
+Theorem C13_find_previous_first_of_max : forall ver hist,
+  versions_nonneg hist = true -> find_previous ver hist = spec_prev ver hist.
+Proof. exact find_previous_two_pass. Qed.
+Print Assumptions C13_find_previous_first_of_max.
+
+(* the hypothesis is needed: the scan starts from max = -1, so a negative version is never found *)
+Theorem C13_negative_version_refuted : exists ver hist o,
+  is_prev ver hist o /\ find_previous ver hist = None.
+Proof.
+  exists 1, [mkElem KNode 5 (-1) true 9], (mkElem KNode 5 (-1) true 9).
+  split; [|reflexivity]. split; [left; reflexivity|]. split; [cbn; lia|].
+  intros h [Hh|[]] _. subst h. cbn. lia.
+Qed.
+
+(* 2. the actions.  On success there is exactly one action per changed element, in the order
+      create, modify, delete and node, way, relation within each (Forall2 against
+      [elems_in_order]); each action is what the property says ([outcome_ok]):
+        created element            -> create action, element marked visible
+        modified / deleted element -> old = a predecessor in the sense of [is_prev],
+                                      new = the element, visible for modify, not visible for delete
+        no history / no predecessor, ignore-missing set -> create action, element marked visible.
+      On failure the error is the one of the FIRST element (in that order) that has no history or
+      no predecessor without ignore-missing (NoVisibleChildError carrying that element's kind and
+      id) or whose data source lookup failed otherwise (that error unchanged, whatever the
+      option), and every element before it had an admissible outcome. *)
+Theorem C13_change_actions : forall ds ign c,
+  ds_nonneg ds ->
+  match annotate_change ds ign c with
+  | ROk acts => Forall2 (outcome_ok ds ign) (elems_in_order c) acts
+  | RErr err => exists pre se post acts,
+                  elems_in_order c = pre ++ se :: post /\
+                  Forall2 (outcome_ok ds ign) pre acts /\ outcome_err ds ign se err
+  end.
+Proof. exact annotate_change_spec. Qed.
+Print Assumptions C13_change_actions.
+
+Corollary C13_one_action_per_element : forall ds ign c acts,
+  ds_nonneg ds -> annotate_change ds ign c = ROk acts ->
+  length acts = length (elems_in_order c).
+Proof.
+  intros ds ign c acts Hds H. pose proof (annotate_change_spec ds ign c Hds) as Hs.
+  rewrite H in Hs. symmetry. clear H. induction Hs; cbn; congruence.
+Qed.
+Print Assumptions C13_one_action_per_element.
+
+(* the same as an equation with the executable specification (one outcome per element, first
+   error wins) *)
+Theorem C13_change_eq_spec : forall ds ign c,
+  ds_nonneg ds -> annotate_change ds ign c = spec_change ds ign c.
+Proof. exact annotate_change_eq_spec. Qed.
+Print Assumptions C13_change_eq_spec.
+
+(* with ignore-missing the only possible failure is a data source error other than not-found *)
+Corollary C13_ignore_missing_never_typed_error : forall ds c k id,
+  ds_nonneg ds -> annotate_change ds true c <> RErr (ENoVisibleChild k id).
+Proof.
+  intros ds c k id Hds H. pose proof (annotate_change_spec ds true c Hds) as Hs. rewrite H in Hs.
+  destruct Hs as (pre & se & post & acts & _ & _ & Hne & Herr). cbn zeta in Herr.
+  destruct (ds (e_kind (snd se)) (e_id (snd se))).
+  - destruct Herr as (_ & Habs & _). discriminate.
+  - destruct Herr as (Habs & _). discriminate.
+  - discriminate.
+Qed.
+Print Assumptions C13_ignore_missing_never_typed_error.
+
+(* ---------- non-vacuity ---------- *)
+Definition ex_hist := [mkElem KNode 3 1 true 21; mkElem KNode 3 3 true 22; mkElem KNode 3 2 false 23;
+                       mkElem KNode 3 5 true 24; mkElem KNode 3 4 true 25].
+Definition ex_ds := ds_of [(KNode, 3, LOk ex_hist); (KRel, 4, LOk [mkElem KRel 4 1 true 26]);
+                           (KWay, 5, LOk [mkElem KWay 5 7 true 27]); (KWay, 6, LOther 9)].
+Definition ex_change :=
+  mkChange (mkSection [mkElem KNode 1 1 false 11] [mkElem KWay 2 1 false 12] [])
+           (mkSection [mkElem KNode 3 4 false 13] [] [mkElem KRel 4 2 true 14])
+           (mkSection [] [mkElem KWay 5 3 true 15] []).
+
+Example C13_ex_nonneg : versions_nonneg ex_hist = true /\ ds_nonneg ex_ds.
+Proof.
+  split; [reflexivity|]. intros k id h H. unfold ex_ds in H. cbn in H.
+  repeat match type of H with
+         | (if ?b then _ else _) = _ => destruct b; [inversion H; subst; reflexivity|]
+         end; discriminate.
+Qed.
+
+Example C13_ex_find_previous :
+  find_previous 4 ex_hist = Some (mkElem KNode 3 3 true 22) /\ find_previous 1 ex_hist = None /\
+  find_previous 9 ex_hist = Some (mkElem KNode 3 5 true 24).
+Proof. repeat split; vm_compute; reflexivity. Qed.
+
+Example C13_ex_change_ignore :
+  annotate_change ex_ds true ex_change =
+  ROk [mkAction TCreate (Some (mkElem KNode 1 1 true 11)) None None;
+       mkAction TCreate (Some (mkElem KWay 2 1 true 12)) None None;
+       mkAction TModify None (Some (mkElem KNode 3 3 true 22)) (Some (mkElem KNode 3 4 true 13));
+       mkAction TModify None (Some (mkElem KRel 4 1 true 26)) (Some (mkElem KRel 4 2 true 14));
+       mkAction TCreate (Some (mkElem KWay 5 3 true 15)) None None].
+Proof. vm_compute. reflexivity. Qed.
+
+Example C13_ex_change_error :
+  annotate_change ex_ds false ex_change = RErr (ENoVisibleChild KWay 5) /\
+  annotate_change ex_ds true (mkChange (mkSection [] [] []) (mkSection [] [mkElem KWay 6 2 true 1] []) (mkSection [] [] []))
+  = RErr (EOther 9).
+Proof. split; vm_compute; reflexivity. Qed.
